@@ -93,14 +93,14 @@ impl Args {
             a.ip_plans = if thorough { 32 } else { 12 };
         }
         if a.ex_plans == 0 {
-            a.ex_plans = if thorough { 12 } else { 6 };
+            a.ex_plans = if thorough { 10 } else { 5 };
         }
         if a.ip_groups == 0 {
             // harvested programs come first, generated ones after; thorough is time-boxed instead
             a.ip_groups = if thorough { usize::MAX } else { 4400 };
         }
         if a.ex_groups == 0 {
-            a.ex_groups = if thorough { usize::MAX } else { 360 };
+            a.ex_groups = if thorough { usize::MAX } else { 440 };
         }
         if a.cap_ms == 0 {
             a.cap_ms = if thorough { 20_000 } else { 10_000 };
